@@ -109,6 +109,11 @@ for extra_cards in list(range(0, 32)) + [rng.randint(0, 40) for _ in range(R.n(4
             finally:
                 raw_utils.glob.glob = real_glob
         R.check('readers/get_total_blocks-any-listing-order', c, tot_ok, None)
+        if len(files) >= 2:
+            # the recording may have been copied or touched: an earlier file can be the newest one
+            import time as _time
+            os.utime(files[0], (_time.time() + 500, _time.time() + 500))
+            R.check('readers/get_total_blocks-whatever-the-modification-times', c, raw_utils.get_total_blocks(stem) == N, raw_utils.get_total_blocks(stem), N)
         if int(allb[0][0].get('DIRECTIO', 0)) != 0 and be.block_size % 512 != 0:
             for f in files:
                 os.unlink(f)
